@@ -302,7 +302,7 @@ Proof.
   assert (Hclo : w_next w <= c) by (inversion HF; auto).
   inversion HF as [? ? ? nso nc1 Hso Hc1 _ Hpar1 Hfil1 _ _ _ _ HI]; subst.
   assert (Hself1 : w_nodes w1 self = Some ns) by (rewrite Hk1; auto).
-  (* fix f5f3361: a copy of an identifiable type without SHORT-NAME is refused; read-only steps *)
+  (* fix a8ba45e: a copy of an identifiable type without SHORT-NAME is refused; read-only steps *)
   assert (EXIT1 : Closed w1 /\ CopyFrame self m w w1 /\ exists ns0, w_nodes w self = Some ns0 /\ w_nodes w1 self = Some ns0).
   { split; auto. split; [apply CopyFrame_of_Ext; repeat split; auto|]. exists ns. auto. }
   apply wbind_inv in H as [(cn0 & w2 & E2 & H) | (e & E2 & _)].
